@@ -15,6 +15,7 @@ PROPS["C19"] = dict(
           "write-type one and more than 64 bytes were written (so growth/slide code ran); distinct = distinct (start kind, "
           "operation-kind sequence)."
           " Every slice returned by ReadBytes is retained and re-compared after each later step (it must be a copy)."
+          " Rarely: sizes of 64 KiB - 200 KB, a template (big write, big Read/Next, UnreadByte/UnreadRune/ReadByte), scripted readers that idle for 99-1000 reads."
           " Second stage: the encoder as it is handed to user marshallers inside real records (1-3 records in a row on pooled contexts, 1-3 marshaller attributes each, 3 formats): at every marshaller entry the reference is a fresh bytes.Buffer with the encoder's contents, length, capacity and read offset (whatever the library wrote since the last call counts as a Write), then 0-8 operations in lock-step; non-trivial: a marshaller starts with Unread* after the previous one ended with a read."),
     assumptions=["bytes.Buffer of the toolchain that builds the harness is the reference",
                  "panic values are compared by class (too-large / error / other), not by wording",
